@@ -437,3 +437,106 @@ def fpsfloat_oracle(c, r):
         if abs(seld[t] - want) > tol:
             return "select distance of initial selection %d is %.9g, true minimum %.9g" % (t, seld[t], want)
     return brute_force(D, sel, seld, r["haus"], len(inits), tol)
+
+
+# ------------------------------------------------------------------ input presentations (exact family)
+# The same lattice handed over in another container must give bit-identical results: fit converts
+# to float (check_array(dtype=FLOAT_DTYPES)) before anything is computed, so an int8/uint8/... array,
+# a nested list, a Fortran-ordered array or a strided view is the same input as its float64 copy.
+PRESENTATIONS = ["float64", "float64", "float64", "int8", "uint8", "int16", "int32", "int64", "float32",
+                 "list", "fortran", "strided"]
+_INT_RANGE = {"int8": (-128, 127), "uint8": (0, 255), "int16": (-2 ** 15, 2 ** 15 - 1),
+              "int32": (-2 ** 31, 2 ** 31 - 1), "int64": (-2 ** 62, 2 ** 62)}
+
+
+def choose_presentation(rng, case):
+    """Pick a container for the case's data and adapt the case so that every value is representable
+    in it (integer containers: no fractional rescaling; uint8: the lattice is translated to be
+    non-negative - the case keeps the translated data, so the model sees what the estimator sees)."""
+    p = rng.choice(PRESENTATIONS)
+    mats = [case["X"]] + ([case["prefit"]["X"]] if "prefit" in case else [])
+    if p in _INT_RANGE:
+        if case.get("scale_pow", 0) < 0 or p in ("int8", "uint8", "int16"):
+            case["scale_pow"] = 0
+        f = 2 ** case.get("scale_pow", 0)
+        if p == "uint8":
+            for M in mats:
+                lo = min(min(r) for r in M)
+                for r in M:
+                    for k in range(len(r)):
+                        r[k] -= lo
+        lo, hi = _INT_RANGE[p]
+        vals = [v * f for M in mats for r in M for v in r]
+        if min(vals) < lo or max(vals) > hi:
+            p = "int16" if max(abs(v) for v in vals) < 2 ** 15 else "int64"
+    case["present"] = p
+    return case
+
+
+def present(rows, how, is_y=False):
+    """rows (list of lists of exactly representable numbers) in the container `how`."""
+    if rows is None:
+        return None
+    A = np.array(rows, dtype=float)
+    if how in _INT_RANGE:
+        if is_y and how == "uint8":
+            return A                      # targets are signed: left as float64
+        B = A.astype(how)
+        assert (B.astype(float) == A).all(), "presentation %s does not represent the data" % how
+        return B
+    if how == "float32":
+        B = A.astype(np.float32)
+        assert (B.astype(float) == A).all(), "presentation float32 does not represent the data"
+        return B
+    if how == "list":
+        return [[int(v) if float(v).is_integer() and abs(v) < 2 ** 53 else float(v) for v in r] for r in A.tolist()]
+    if how == "fortran":
+        return np.asfortranarray(A)
+    if how == "strided":
+        big = np.full((2 * A.shape[0] + 1, 3 * A.shape[1] + 2), 777.0)
+        big[1::2, 2::3] = A
+        return big[1::2, 2::3]            # non-contiguous view, foreign values in between
+    return A
+
+
+def run_chain_present(kind, axis, Xrows, y, init, stages, how, extra=None, scale=1, prefit=None, data_scale=1):
+    """harness.selectors.run_chain with the data handed over in the container `how`
+    (stage 0 cold, later stages warm-started; optional earlier cold fit on other data)."""
+    X = present(Xrows, how)
+    Y = present(y, how, is_y=True)
+    Xf = np.array(Xrows, dtype=float)
+    kw = dict(extra or {})
+    if init is not None:
+        kw["initialize"] = init
+    sel = S.make_selector(kind, axis, **kw)
+    if prefit is not None:
+        sel.n_to_select = prefit["nts"]
+        with warnings.catch_warnings():
+            warnings.simplefilter("ignore")
+            if prefit.get("y") is None:
+                sel.fit(present(prefit["X"], how))
+            else:
+                sel.fit(present(prefit["X"], how), present(prefit["y"], how, is_y=True))
+    out = []
+    for si, st in enumerate(stages):
+        sel.n_to_select = st["nts"]
+        sel.score_threshold = None
+        rec = {}
+        with warnings.catch_warnings(record=True) as w:
+            warnings.simplefilter("always")
+            try:
+                if Y is None:
+                    sel.fit(X, warm_start=(si > 0))
+                else:
+                    sel.fit(X, Y, warm_start=(si > 0))
+                rec["stopped"] = any("Score threshold" in str(x.message) for x in w)
+                rec["obs"] = S.observe(sel, Xf, axis, scale, data_scale) if data_scale != 1 else S.observe(sel, Xf, axis, scale)
+            except C.InexactOutput:
+                raise
+            except Exception as e:      # noqa
+                rec["error"] = S.err_class(e)
+                rec["error_msg"] = str(e)[:200]
+        out.append(rec)
+        if "error" in rec:
+            break
+    return out, sel
